@@ -176,6 +176,66 @@ example :
 
 end Udp
 
+/-! ## §3 pipelined TCP/TLS connections -/
+section Pipe
+open Pipe
+
+/-- **A delivered message carries the ID its waiter allocated and was read from that waiter's own
+connection while the waiter was registered** — for any number of connections sharing the global slot
+pool, any interleaving of `RoundTrip` calls, `readLoop`s and `closeWithErr`s (including a holder
+standing between `pending[id].Swap(nil)` and `slot.set`), and any upstream (late, duplicate, unknown
+or foreign IDs).  In particular no message crosses from one connection or one call to another. -/
+theorem delivered_matches_waiter (as : List Act) (w c id : Nat) (m : Msg)
+    (h : (w, c, id, some m) ∈ (run codePolicy init as).log) : m.id = id ∧ m.conn = c :=
+  (inv_run as _ inv_init).LG w c id m h
+
+/-- IDs in flight on one connection are pairwise distinct, and marked in the bitmap. -/
+theorem ids_in_flight_unique (as : List Act) (w1 w2 c id s1 s2 : Nat) :
+    let s := run codePolicy init as
+    (s.pc w1).reg = some (c, id, s1) → (s.pc w2).reg = some (c, id, s2) → w1 = w2 ∧ s.alloc c id = true := by
+  intro s h1 h2
+  have hinv := inv_run as _ inv_init
+  exact ⟨hinv.UQ w1 w2 c id s1 s2 h1 h2, hinv.AL w1 c id s1 h1⟩
+
+/-- `idBitmap.Allocate` hands out an ID that is free and below 4096. -/
+theorem allocate_returns_free_id (used : Nat → Bool) (next id : Nat) (h : allocate used next = some id) :
+    used id = false ∧ id < 4096 :=
+  allocate_spec used next id h
+
+/-- **A timeout closes the connection, and nothing read later is delivered**: cancelling a waiting
+`RoundTrip` marks its connection closed, `closed` never reverts, and `readLoop` hands no message of a
+closed connection to anyone. -/
+theorem timeout_closes_connection (pol : Recycle) (s : St) (w c id sl : Nat) (h : s.pc w = .waiting c id sl) :
+    (step pol s (.cancel w)).closed c = true ∧
+    (∀ a c', s.closed c' = true → (step pol s a).closed c' = true) ∧
+    (∀ c' id' tag, s.closed c' = true → step pol s (.recvSwap c' id' tag) = s) := by
+  refine ⟨by simp [step, h], ?_, ?_⟩
+  · intro a c' hc
+    cases a <;> simp only [step] <;> (repeat' split) <;> simp_all [upd] <;> (try split) <;> simp_all
+  · intro c' id' tag hc
+    simp [step, hc]
+
+/-- non-vacuity: a duplicate answer for an ID that has meanwhile been reused is delivered to the NEW
+holder of the ID (which is why the controller compares questions, §1) — the theorem above constrains
+ID and connection, not payload. -/
+example :
+    let s := run codePolicy init
+      [.start 0 0 5 0, .recvSwap 0 5 100, .set 0, .take 0, .leave 0,   -- W0 asked with id 5, answered (tag 100)
+       .start 1 0 5 0, .recvSwap 0 5 100, .set 0, .take 1]             -- id 5 and slot 0 reused by W1; duplicate arrives
+    s.log = [(0, 0, 5, some ⟨5, 100, 0⟩), (1, 0, 5, some ⟨5, 100, 0⟩)] := by
+  simp [run, step, init, upd, upd2, codePolicy]
+
+/-- The schedule reproduced on the code BEFORE fix c5a497d (slot returned to the pool
+unconditionally): `readLoop` of connection 0 holds W0's slot; W0's context ends and its slot goes back
+to the pool; W1 takes the same slot on connection 1; `readLoop` then delivers W0's answer to W1. -/
+theorem slot_reuse_cross_delivery_before_fix :
+    let s := run .always init
+      [.start 0 0 7 3, .recvSwap 0 7 100, .cancel 0, .leave 0, .start 1 1 9 3, .set 3, .take 1]
+    (1, 1, 9, some ⟨7, 100, 0⟩) ∈ s.log := by
+  simp [run, step, init, upd, upd2]
+
+end Pipe
+
 /-! ## §4 cached forwarder entry -/
 section Fwd
 open Fwd
